@@ -931,6 +931,11 @@ def run(rep, ctx):
     with rep.guard("R01.15"):
         from .. import handlers
         handlers.check(rep, M, "R01.15", M.reachable([GC]))
+    rep.rule("R01.16", "the geometry helpers the clustering rests on (get_distances, displacement-tensor wrapper, get_radii, bond clustering) satisfy their own rules (shared with C10/C19)")
+    with rep.guard("R01.16"):
+        from . import shared as _sh
+        _sh.distances(rep, ctx.model, "R01.16")
+        _sh.radii(rep, ctx.model, "R01.16")
     rep.floor("R01.15", 8)
     rep.floor("R01.14", 2)
     rep.floor("R01.11", 2)
